@@ -271,8 +271,16 @@ def run(ctx):
         trees.standard(tree, hostile_content=False)
         trees.add_full_list_content(tree)
         cfg = pyg.make_config(tree.root, pyg.FULL_HANDLERS, **{"handlers.dir.DirHandler|cachetime": "0", "handlers.ZIP.ZIPHandler|enabled": "true"})
-        for sel, want in (("/arch.zip/box.mbox", trees.MBOX), ("/arch.zip/run.pyg", trees.PYG_SRC.encode())):
-            r = pyg.request(reqs.build("gopher", sel), cfg)
+        # (members recorded with Unix mode 0755 included; run from a working directory that has programs at the members' relative paths)
+        decoy = os.path.join(tree.tmp, "cwd-decoy")
+        os.makedirs(os.path.join(decoy, "tools"))
+        for nm, body in (("tools/report.sh", b"#!/bin/sh\necho DECOY\n"), ("tools/gen.pyg", trees.PYG_SRC.replace('"pyg:"', '"DECOY:"').encode())):
+            with open(os.path.join(decoy, nm), "wb") as f:
+                f.write(body)
+            os.chmod(os.path.join(decoy, nm), 0o755)
+        for sel, want in (("/arch.zip/box.mbox", trees.MBOX), ("/arch.zip/run.pyg", trees.PYG_SRC.encode()),
+                          ("/arch.zip/tools/report.sh", trees.ZIP_SCRIPT), ("/arch.zip/tools/gen.pyg", trees.PYG_SRC.encode())):
+            r = pyg.request(reqs.build("gopher", sel), cfg, cwd=decoy)
             res.evaluations += 1
             if r.out != want:
                 res.violation("C16:real-only-handler-acted", "a handler that needs a real file acted on an archive member", {"selector": sel},
